@@ -329,6 +329,7 @@ def prove_scenario(scn, *, seed=0, crosscheck=2, max_paths=4000, timeout_ms=1000
     n_ident = 0
     n_smt = 0
     const_slack = [0]
+    raised_notes = []
     statements = []
     sym_paths = []
     for (claims, mk), path in results:
@@ -395,6 +396,8 @@ def prove_scenario(scn, *, seed=0, crosscheck=2, max_paths=4000, timeout_ms=1000
             elif kind == "true":
                 n_ident += 1
                 v = cl[2]
+                if name == "unsupported_combination_raises":
+                    raised_notes.append(str(cl[3])[:160] if len(cl) > 3 else "raised")
                 if isinstance(v, torch.Tensor):
                     v = bool(v.all())
                 if isinstance(v, Cond):
@@ -443,7 +446,8 @@ def prove_scenario(scn, *, seed=0, crosscheck=2, max_paths=4000, timeout_ms=1000
                 xchecks += 1
     return Result(backend="nf" + ("+z3" if n_smt else ""), paths=len(results), identities=n_ident,
                   smt_goals=n_smt, crosschecks=xchecks, statement="; ".join(statements)[:600],
-                  side_conditions=len(nf.SIDE), constant_residuals_below_1e_12=const_slack[0])
+                  side_conditions=len(nf.SIDE), constant_residuals_below_1e_12=const_slack[0],
+                  **({"raised": raised_notes[0]} if raised_notes else {}))
 
 
 def _with_env(replay, env):
@@ -466,9 +470,8 @@ def _confirm(scn, decls, assumptions, rng, name, fns, rtol, env=None):
             continue
         except Exception:
             return True  # real code raises at a point of the domain
-        for cl in claims:
-            if cl[1] != name:
-                continue
+        named = [cl for cl in claims if cl[1] == name]
+        for cl in (named or claims):   # claim absent from the concrete run: any failing claim confirms
             if not _num_claim_holds(cl, rtol):
                 return True
         if env is not None:
